@@ -225,6 +225,61 @@ func runC15(c *Ctx) {
 			}
 			return true
 		})
+		// the same order through one list of URIs: [uri] then failover…, ranged once, never re-ordered
+		if !(firstURI && appendsFailover) {
+			var list types.Object
+			uriAt, failAt := token.NoPos, token.NoPos
+			reordered := false
+			ast.Inspect(nfg.Decl.Body, func(n ast.Node) bool {
+				switch x := n.(type) {
+				case *ast.AssignStmt:
+					if len(x.Lhs) != 1 || len(x.Rhs) != 1 {
+						return true
+					}
+					call, ok := ast.Unparen(x.Rhs[0]).(*ast.CallExpr)
+					if !ok || exprStr(call.Fun) != "append" {
+						return true
+					}
+					o := objOf(cinfo, x.Lhs[0])
+					if t := cinfo.TypeOf(x.Lhs[0]); o == nil || t == nil || t.String() != "[]string" {
+						return true
+					}
+					for _, a := range call.Args[1:] {
+						if fieldSel(cinfo, a, "internal/config.PrometheusConfig", "URI") && uriAt == token.NoPos {
+							list, uriAt = o, x.Pos()
+						}
+						if fieldSel(cinfo, a, "internal/config.PrometheusConfig", "Failover") && call.Ellipsis.IsValid() && o == list && failAt == token.NoPos {
+							failAt = x.Pos()
+						}
+					}
+				case *ast.CallExpr:
+					if fn := Callee(cinfo, x); fn != nil && fn.Pkg() != nil && (fn.Pkg().Path() == "sort" || fn.Pkg().Path() == "slices") && len(x.Args) >= 1 && list != nil && objOf(cinfo, x.Args[0]) == list {
+						switch fn.Name() {
+						case "Contains", "Index", "IndexFunc", "ContainsFunc", "Clone":
+						default:
+							reordered = true
+						}
+					}
+				}
+				return true
+			})
+			ranged := false
+			ast.Inspect(nfg.Decl.Body, func(n ast.Node) bool {
+				if rs, ok := n.(*ast.RangeStmt); ok && list != nil && objOf(cinfo, rs.X) == list && rs.Value != nil {
+					v := objOf(cinfo, rs.Value)
+					ast.Inspect(rs.Body, func(m ast.Node) bool {
+						if call, ok := m.(*ast.CallExpr); ok && isCallTo(cinfo, call, "internal/promapi.NewPrometheus") && len(call.Args) > 1 && objOf(cinfo, call.Args[1]) == v {
+							ranged = true
+						}
+						return true
+					})
+				}
+				return true
+			})
+			if list != nil && uriAt.IsValid() && failAt.IsValid() && uriAt < failAt && ranged && !reordered {
+				firstURI, appendsFailover = true, true
+			}
+		}
 		c.Check(firstURI && appendsFailover, "C15-R1", "newFailoverGroup:uri first, then failover in order", nfg.Decl.Pos(), "configured order", "upstream list is not built as [uri, failover...] by ranging over prom.Failover itself")
 		reorder := ""
 		ast.Inspect(nfg.Decl.Body, func(n ast.Node) bool {
